@@ -156,6 +156,9 @@ func GenPrefix(r *PRNG, c *Config) []Step {
 			}
 		}
 	}
+	if r.Chance(0.12) {
+		out = append(out, Step{K: "mktwin", A: 0})
+	}
 	out = append(out, Step{K: "boot"})
 	return out
 }
